@@ -5,6 +5,7 @@
 package hx
 
 import (
+	"math"
 	"encoding/json"
 	"fmt"
 	"sort"
@@ -169,6 +170,11 @@ func canonJSON(v any) string {
 	return string(b)
 }
 
+// NaNMarker stands for a float64 NaN in the metadata of an operation (a NaN cannot be written
+// into a replay artefact): World turns it into the real thing before calling the engine, and
+// the model treats metadata containing it as not serialisable — the call must be rejected.
+const NaNMarker = "\u00a7NaN\u00a7"
+
 func cloneMeta(m map[string]any) map[string]any {
 	if m == nil {
 		return nil
@@ -178,6 +184,27 @@ func cloneMeta(m map[string]any) map[string]any {
 		out[k] = v
 	}
 	return out
+}
+
+// engineMeta is cloneMeta with the NaN marker replaced by a real NaN.
+func engineMeta(m map[string]any) map[string]any {
+	out := cloneMeta(m)
+	for k, v := range out {
+		if s, ok := v.(string); ok && s == NaNMarker {
+			out[k] = math.NaN()
+		}
+	}
+	return out
+}
+
+// Unserialisable reports whether the metadata carries the NaN marker.
+func Unserialisable(m map[string]any) bool {
+	for _, v := range m {
+		if s, ok := v.(string); ok && s == NaNMarker {
+			return true
+		}
+	}
+	return false
 }
 
 func cloneVec(v []float32) []float32 {
